@@ -227,6 +227,7 @@ ADDENDA = {
     "C02": "Also decides: (R02.f) closed-world complement only under an identity test; (R02.g) match guards always contribute their constraint; (R02.h) operator mirrored when the narrowed operand is on the right; (R02.i) origin-subset test before applying a constraint; (R02.j) the isinstance() predicate is a runtime-class test - its negative arm does not drop on assignability alone and its promoted-type table equals TypeObject's artificial bases.",
     "C03": "Also decides: (R03.d) accepting shortcuts before the union member loop need an exact justification.",
     "C04": "Also decides: (R04.g) exact early accepts in MultiValuedValue.can_assign; (R04.h) SequenceValue acceptances are dominated by the length comparison; (R04.i) direction of the metatype test.",
+    "C05": "Also decides, by model extraction: (R05.f/g) the body of bind_arguments is interpreted from its AST over an abstract store (opaque values, concrete control skeleton) for every def-legal signature of up to 4 (quick) / 6 (thorough) parameters and every call shape of up to 4 positionals and 4 keywords with and without *args/**kwargs of unknown length (158,620 / 2,883,300 abstract calls); accepted <=> CPython binds on the definite slice, and the exists-expansion clause on the star slice, against a reference binder that the thorough tier validates against the interpreter's own binding.",
     "C06": "Also decides: (R06.c) every collected bounds map reaches the solver through one unified list; (R06.d) the own-default exemption is an identity test.",
     "C07": "Also decides: (R07.e) actual parameters are marked consumed only when paired with a named expected parameter.",
     "C08": "Also decides: (R08.e) union decomposition for positional and keyword arguments alike.",
